@@ -1,7 +1,7 @@
 /* env_array.h — element model for the array.c / objpair.c units (owner: array).
  *
  * Include order in a unit TU:
- *     #define VERIF_REALLOC_ELEM_T spif_obj_t
+ *     #define VA_ELEM_T spif_obj_t       (slot type for the realloc/memmove/memset models below)
  *     #include "vprelude.h"
  *     #include "env_array.h"        (ghosts, element stubs, re-binding of SPIF_OBJ_COMP/DUP/DEL)
  *     #include "array.h"            (spec macros)
@@ -39,9 +39,10 @@
  *
  *   SPIF_OBJ_DUP(o) / SPIF_OBJ_DEL(o) -> va_dup / va_del: index-dispatched.  Loops that call
  *       them record the running slot index in vg_cur (annotation, ghost assignment).  For the
- *       ghost slot (vg_cur == vg_k) the operation is the REAL velem_dup / velem_del on the real
- *       object is_fresh'ed by the precondition for that slot; for every other slot it is the
- *       over-approximation "dup returns some non-NULL pointer, del does nothing".  In the run
+ *       ghost slot (vg_cur == vg_k) the operation acts on the real object is_fresh'ed by the
+ *       precondition for that slot (dup: copy into a fresh block; del: checked and counted, see
+ *       va_del); for every other slot it is the over-approximation "dup returns some pointer, del
+ *       does nothing".  In the run
  *       with vg_k = k slot k is concrete, and vg_k is arbitrary, so each slot's memory safety,
  *       "freed exactly once", "copy is fresh and equal" are all covered; what is NOT covered is
  *       interference between two different slots holding the SAME element object (double free
@@ -92,6 +93,7 @@ static spif_cmp_t va_comp(spif_obj_t a, spif_obj_t b)
 {
     __CPROVER_assert(a != NULL, "SPIF_OBJ_COMP: receiver is not NULL (dispatch dereferences it)");
     if (b == NULL) return SPIF_CMP_GREATER;
+    if (a == b) return SPIF_CMP_EQUAL;             /* one object, one key */
     int ka = va_key(a), kb = va_key(b);
     return VA_CMP3(ka, kb);
 }
@@ -100,8 +102,8 @@ static spif_cmp_t va_comp(spif_obj_t a, spif_obj_t b)
 {
     __CPROVER_assert(a != NULL, "SPIF_OBJ_COMP: receiver is not NULL (dispatch dereferences it)");
     if (b == NULL) return SPIF_CMP_GREATER;
-    if (a == vg_ca && b == vg_cb) return vg_cr;
-    if (a == vg_ca2 && b == vg_cb2) return vg_cr2;
+    if (a == vg_ca && b == vg_cb && VA_CMP_OK(vg_cr)) return vg_cr;
+    if (a == vg_ca2 && b == vg_cb2 && VA_CMP_OK(vg_cr2)) return vg_cr2;
     int r = nondet_int();
     return VA_CMP3(r, 0);
 }
@@ -110,7 +112,7 @@ static spif_cmp_t va_comp(spif_obj_t a, spif_obj_t b)
 /* ---- memmove / memset on slot arrays ---------------------------------------
  * cbmc's models copy / fill a byte range of SYMBOLIC length; on arrays of 8-byte pointers no
  * back end finishes (probed on remove_at: z3, cvc5 > 300 s, minisat out of memory).  Like env.h's
- * realloc these are OVER-APPROXIMATIONS of the libc functions for arrays of VERIF_REALLOC_ELEM_T:
+ * realloc these are OVER-APPROXIMATIONS of the libc functions for arrays of VA_ELEM_T:
  * argument validity is asserted (readable source, writable destination, element alignment), then
  * the WHOLE destination object gets arbitrary contents, except for the slots that the ghost index
  * vg_k designates:
@@ -121,10 +123,30 @@ static spif_cmp_t va_comp(spif_obj_t a, spif_obj_t b)
  * array.c shift slots inside self->items).
  * The real functions preserve/establish that for every slot; vg_k is arbitrary, so postconditions
  * stated through vg_k are the universally quantified ones. */
-#ifdef VERIF_REALLOC_ELEM_T
+#ifdef VA_ELEM_T
+/* realloc: env.h's single-ghost-element model (selected there by VERIF_REALLOC_ELEM_T, which the
+ * array units do NOT define) keeps slot vg_k only.  The vector/map units reason about up to three
+ * ghost slots at once (vg_k, vg_k2 and the instantiation point vg_j), so this variant keeps those
+ * three; otherwise it is the same OVER-APPROXIMATION: fresh block, arbitrary contents, old block
+ * freed.  The new block is allocated as an array of slots (not bytes), which is also cheaper. */
+void *realloc(void *p, size_t n)
+{
+    typedef VA_ELEM_T va_T;
+    if (p == NULL) return malloc(sizeof(va_T) * (n / sizeof(va_T)));
+    __CPROVER_assert(__CPROVER_POINTER_OFFSET(p) == 0, "realloc: pointer is the start of a block");
+    va_T *r = malloc(sizeof(va_T) * (n / sizeof(va_T)));
+    size_t m = __CPROVER_OBJECT_SIZE(p);
+    if (n < m) m = n;
+    m = m / sizeof(va_T);
+    if (vg_k < m) r[vg_k] = ((va_T *) p)[vg_k];
+    if (vg_k2 < m) r[vg_k2] = ((va_T *) p)[vg_k2];
+    if (vg_j < m) r[vg_j] = ((va_T *) p)[vg_j];
+    free(p);
+    return r;
+}
 void *memmove(void *dst, const void *src, size_t n)
 {
-    typedef VERIF_REALLOC_ELEM_T va_T;
+    typedef VA_ELEM_T va_T;
     if (n == 0) return dst;
     __CPROVER_assert(__CPROVER_r_ok(src, n), "memmove: source readable");
     __CPROVER_assert(__CPROVER_w_ok(dst, n), "memmove: destination writable");
@@ -152,7 +174,7 @@ void *memmove(void *dst, const void *src, size_t n)
 }
 void *memset(void *dst, int c, size_t n)
 {
-    typedef VERIF_REALLOC_ELEM_T va_T;
+    typedef VA_ELEM_T va_T;
     if (n == 0) return dst;
     __CPROVER_assert(__CPROVER_w_ok(dst, n), "memset: destination writable");
     __CPROVER_assert(n % sizeof(va_T) == 0 && __CPROVER_POINTER_OFFSET(dst) % sizeof(va_T) == 0, "memset: whole aligned slots");
@@ -195,13 +217,18 @@ static spif_obj_t va_dup(spif_obj_t o)
     spif_obj_t r = nondet_ptr();
     return r;
 }
+/* del inside a loop is COUNTED, not executed: cbmc 6.11 loop contracts have no frees clause, the
+ * deallocation status of an object is not part of the havocked loop state, and DFCC runs the
+ * loop body once before the havoc, so a real free() in a contracted loop yields spurious
+ * "double free" / "not freeable" failures.  The count carries "deleted exactly once" through the
+ * invariant; that the element is a live object when it is deleted is asserted here. */
 static spif_bool_t va_del(spif_obj_t o)
 {
     if (vg_cur == vg_k) {
         __CPROVER_assert(o != NULL, "SPIF_OBJ_DEL: receiver is not NULL (dispatch dereferences it)");
         __CPROVER_assume(o != NULL);
+        __CPROVER_assert(__CPROVER_rw_ok((velem_t) o, sizeof(struct velem_struct)), "SPIF_OBJ_DEL: element is a live object");
         vg_del_cnt++;
-        return velem_del((velem_t) o);
     }
     return TRUE;
 }
